@@ -469,3 +469,38 @@ def check_C04(run, replay):
             run.distinct.add("lemma-%d" % k)
     monitor(run, "c04", 15 if run.tier == "quick" else 200)
     run.notes["tlc_states"] = run.states
+
+
+# ------------------------------------------------------------------------------------------ C09
+LEVELS["C09"] = "model_checking"
+
+
+def check_C09(run, replay):
+    run.rule = ("model: Stop.tla checked by TLC for every bound sequence over 0..3 of length <=4 x thresholds 0..4 and NaN "
+                "(StopIsPrefix, NeverPastFirstHit, BudgetRespected, ThresholdsNeverShorten, termination under fairness); "
+                "traces: for U-zoo and seeded games, methods Full / Sampled / External under pinned draws, the five presets, "
+                "budgets {2,5,20(,1,100)}: the unthresholded prefixes t=1..N (bound tokens, strategy digests), then "
+                "solve(m,N,r,k) for r just below / at / just above every total bound (next_down, exact, next_up; 1e-6 apart "
+                "for k>1), 0, -1, NaN, +-inf, k in {1,4(,2)}; every run validated against Trace_Stop.tla; non-trivial = "
+                "every thresholded run; distinct = distinct run events")
+    run.assumptions = ["one thread is bitwise deterministic under pinned draws (prefix digests compared bitwise)",
+                       "with several threads thresholds keep a relative distance of 1e-6 from every bound"]
+    res = tlc("MC_Stop", timeout=600)
+    run.add_tlc(res)
+    trace = run.path("stop.ndjson")
+    n = 10 if run.tier == "quick" else 150
+    args = ["record", "stop", "--seed", run.seed, "--n", n, "--out", trace]
+    if run.tier == "thorough":
+        args += ["--thorough", "1"]
+    info = json.loads(harness(args, timeout=6000).strip().splitlines()[-1])
+    for f in info["failed"][:5]:
+        run.violation("stop:failed", {"event": f, "context": {"seed": run.seed, "n": n}})
+    validate_trace(run, "Trace_Stop", trace, "stop:run", {"seed": run.seed, "n": n}, timeout=6000)
+    run.traces += info["runs"]
+    run.evaluations += info["runs"]
+    with open(trace) as f:
+        for line in f:
+            if '"e":"run"' in line:
+                run.distinct.add(line)
+                run.sample(json.loads(line), limit=2)
+    run.notes["stopped_early"] = info["stopped_early"]
